@@ -67,4 +67,16 @@ LEVEL_TEXT = {
         "note": "Database equality is taken on the sequential codec's output (C07 relates the real compiler to it). Two genuine defects found and fixed: a swallowed source error (stream facet) and the lost wildcard of SVCB/HTTPS owners (found by the piggy-backed round trip).",
         "technique": "deterministic simulation of stream segmentation, source faults and producer scheduling around the streaming preprocessor; database-equality oracle",
     },
+    "C11": {
+        "text": "The random source of the weighted selection goes behind a verif-only seam and is seeded from the scenario, so every run, including the statistical one, is repeatable. 1-4 scheduled client tasks query seeded candidate sets (weights 0 .. 2^32-1, two locations, both families, max answer 1..8) on a real CDB; every response is checked for count, repetition, membership, weight-0 exclusion with the name still existing, and the one-per-family glue rule; one run in ten adds a chi-square test over 20000 draws at p < 1e-9. The same invariants run free under the race detector in C14's race tier. Evidence, not proof.",
+        "design_ref": "§5.6",
+        "note": "Holds on the unchanged tree. The chi-square threshold is fixed so that the false-alarm probability over all runs is negligible while realistic breakages (weight ignored, exponent inverted, first-candidate bias) give p far below it.",
+        "technique": "deterministic simulation: seeded random stream + seeded scheduling of concurrent clients, per-response invariants and a seeded chi-square test",
+    },
+    "C14": {
+        "text": "Two tiers. (a) Controlled schedules on the simulated server with the real reload loop, the real periodic reloader on the fake ticker, a stats reporter and Close at a seeded position, both backends: a quiescent state with unfinished tasks is a deadlock, any panic and any call reaching a closed storage back end is a crash. (b) Data races: the same kind of workload free-running on all cores under the Go race detector with the hooks in perturbation mode (no synchronisation), including the real fsnotify watcher, real metrics.Stats (counter = sum of increments) and the weighted-selection invariants. Evidence, not proof.",
+        "design_ref": "§5.8",
+        "note": "Tier (b) is the one place where replay means 'same report from a fresh process with the same seed'. Four genuine defects found and fixed (stats and reload after Close; races on IteratorPool.enabled and on the served DB path); the send-on-closed-channel panic of the periodic reloader at shutdown is a recorded known finding.",
+        "technique": "deterministic simulation (seeded scheduler: deadlock/panic/use-after-close) plus a seeded free-running stress tier under the Go race detector",
+    },
 }
